@@ -127,7 +127,11 @@ theorem attrSet_PS (c : Ctx) (a b : Nat) (v : Int) (h : PS c) : OutcomeP PS (opA
   · split
     · obtain ⟨l, hj⟩ := h
       exact ⟨l, hj.same (StreamSame.ofSameT (setAttTo_same _ _ _ _)) (setAttTo_is _ _ _ _)⟩
-    · exact h
+    · simp only []
+      obtain ⟨l, hj⟩ := h
+      split <;> first
+        | exact ⟨l, hj.same (by simp only [withSeg_seg]; exact StreamSame.upd _ _ _ (fun _ => ⟨rfl, rfl, rfl, rfl⟩)) rfl⟩
+        | exact ⟨l, hj⟩
 
 theorem tempCopy_PS (c : Ctx) (h : PS c) : OutcomeP PS (opTempCopy c) := by
   unfold opTempCopy
